@@ -13,7 +13,7 @@ from vcheck.hcommon import pin, pinned, tier
 BS = chr(92)
 # the parameter-value alphabet of the statement: , ; : = ' ^ space backslash percent + hex digits of
 # the placeholder codes + a letter + a non-ASCII member of QUOTABLE
-ALPH = ",;:='^ " + BS + "%2C3Aa’"
+ALPH = ",;:='^ " + BS + "%2C3Aa’\u00a0\u3000"
 N_SYM = tier(3, 4)
 NAMES = ["X", "x", "TZID", "tzid", "Tzid", "x-a", "X-A", "CN"]
 
